@@ -4,6 +4,9 @@ go 1.23
 
 require github.com/elastic/go-libaudit/v2 v2.0.0
 
-require golang.org/x/sys v0.11.0 // indirect
+require (
+	golang.org/x/sys v0.11.0 // indirect
+	gopkg.in/yaml.v3 v3.0.1 // indirect
+)
 
 replace github.com/elastic/go-libaudit/v2 => /repo
